@@ -1,56 +1,62 @@
 """Generic decision procedure of a check (DESIGN.md section 1.2).
 
-A property module provides:
-  PROP, PROP_FILE, ENGINE, IMPORTS, FN, TY
-  gen_cases(rng, tier) -> list of case dicts (each gets an 'id')
+A property module provides PROP, PROP_FILE and either the attributes of one *part* itself or
+PARTS = [part, ...].  A part provides:
+  NAME (optional), ENGINE, IMPORTS, FN, TY
+  gen_cases(rng, tier) -> list of case dicts
   to_harness(case) -> dict sent to the Go harness
-  to_gallina(case, obs) -> Gallina term of type TY (case input + implementation observation)
+  to_gallina(case, obs) -> Gallina term of type TY (case input + implementation observation);
+      FN : TY -> bool * bool  = (model agrees with implementation, executable spec holds of implementation)
   nontrivial(case, obs) -> hashable key (distinct non-trivial case) or None
   describe(case, obs) -> JSON-able sample
 optional:
-  CORPUS: list of cases run first
-  classify(case, obs) -> id of a known finding this failure is an instance of, or None
-  shrink(case) -> iterable of smaller candidate cases
-  extra_search(rng, round) -> further cases when model and implementation disagree
-  RULE: text for the evidence
-  ASSUMPTIONS: list of strings
-  histogram(cases, obs) -> dict
-  post(ctx): further verdict lines
+  CORPUS, classify(case, obs) -> known-finding id or None, shrink(case) -> candidates,
+  extra_search(rng, round) -> cases, RULE, ASSUMPTIONS, histogram(cases, obs), model_view(case, obs, tier),
+  run_impl(cases) -> {id: obs}   (instead of ENGINE, for parts that drive the harness themselves)
 """
 import json, os, random, sys, time, traceback
 from . import core
 
 
-def evaluate(mod, tier, cases, tag="cases"):
+def part_name(part):
+    return getattr(part, "NAME", None) or getattr(part, "ENGINE", "part")
+
+
+def evaluate(prop, part, tier, cases, tag="cases"):
     """Run implementation and model on the cases; returns (obs, verdicts) with verdicts[id] = (agree, spec)."""
-    hcases = []
-    for c in cases:
-        h = dict(mod.to_harness(c))
-        h["id"] = c["id"]
-        hcases.append(h)
-    obs = core.run_harness(mod.ENGINE, hcases, timeout=getattr(mod, "HARNESS_TIMEOUT", 900),
-                           shards=getattr(mod, "HARNESS_SHARDS", None),
-                           extra_env=getattr(mod, "HARNESS_ENV", None))
-    terms = [mod.to_gallina(c, obs[c["id"]]) for c in cases]
-    res = core.coq_eval(mod.PROP, tier, mod.IMPORTS, mod.FN, terms, mod.TY,
-                        shard_size=getattr(mod, "SHARD", 300), tag=tag)
+    if not cases:
+        return {}, {}
+    if hasattr(part, "run_impl"):
+        obs = part.run_impl(cases)
+    else:
+        hcases = []
+        for c in cases:
+            h = dict(part.to_harness(c))
+            h["id"] = c["id"]
+            hcases.append(h)
+        obs = core.run_harness(part.ENGINE, hcases, timeout=getattr(part, "HARNESS_TIMEOUT", 900),
+                               shards=getattr(part, "HARNESS_SHARDS", None),
+                               extra_env=getattr(part, "HARNESS_ENV", None))
+    terms = [part.to_gallina(c, obs[c["id"]]) for c in cases]
+    res = core.coq_eval(prop, tier, part.IMPORTS, part.FN, terms, part.TY,
+                        shard_size=getattr(part, "SHARD", 300), tag=part_name(part) + "_" + tag)
     verdicts = {c["id"]: res[i] for i, c in enumerate(cases)}
     return obs, verdicts
 
 
-def shrink_case(mod, tier, case, want):
+def shrink_case(prop, part, tier, case, want):
     """Greedy shrinking: keep a smaller candidate while predicate want(verdict) stays true."""
-    if not hasattr(mod, "shrink"):
+    if not hasattr(part, "shrink"):
         return case
     cur = case
-    for _ in range(12):
-        cands = list(mod.shrink(cur))[:200]
+    for _ in range(getattr(part, "SHRINK_ROUNDS", 12)):
+        cands = [dict(c) for c in list(part.shrink(cur))[:getattr(part, "SHRINK_WIDTH", 120)]]
         if not cands:
             break
         for i, c in enumerate(cands):
             c["id"] = i
         try:
-            obs, ver = evaluate(mod, tier, cands, tag="shrink")
+            obs, ver = evaluate(prop, part, tier, cands, tag="shrink")
         except Exception:
             break
         nxt = None
@@ -64,12 +70,16 @@ def shrink_case(mod, tier, case, want):
     return cur
 
 
+def strip(case):
+    return {k: v for k, v in case.items() if not k.startswith("_")}
+
+
 def run_property(mod, tier, seed, replay=None):
     t0 = time.time()
     prop = mod.PROP
-    rng = random.Random((seed * 1000003) ^ hash(prop) % 65536 if False else seed * 1000003 + sum(map(ord, prop)))
+    parts = getattr(mod, "PARTS", None) or [mod]
+    rng = random.Random(seed * 1000003 + sum(map(ord, prop)))
     problems = []          # things that make the property "no longer shown"
-    # 1 builds
     ok_coq, coq_log = core.build_coq()
     ok_h, h_log = core.build_harness()
     st = core.theorem_status(prop, mod.PROP_FILE)
@@ -85,119 +95,134 @@ def run_property(mod, tier, seed, replay=None):
                                       "correspondence of the model with the code cannot be established",
                               "log": h_log[-3000:]}, no_input=True)
         return 1
-    # 2 cases
-    if replay:
-        rp = json.load(open(replay))
-        cases = rp.get("cases") or [rp["case"]]
-    else:
-        cases = list(getattr(mod, "CORPUS", [])) + mod.gen_cases(rng, tier)
-    for i, c in enumerate(cases):
-        c["id"] = i
-    obs, ver = evaluate(mod, tier, cases)
     kf = core.known_findings()
     open_ids = {e["id"]: e for e in kf.get("open", []) if e.get("property") == prop}
-    spec_fail = [c for c in cases if not ver[c["id"]][1]]
-    disagree = [c for c in cases if not ver[c["id"]][0]]
-    known_hits, unknown = {}, []
-    for c in spec_fail:
-        k = mod.classify(c, obs[c["id"]]) if hasattr(mod, "classify") else None
-        if k is not None and k in open_ids:
-            known_hits.setdefault(k, []).append(c)
+    rp = json.load(open(replay)) if replay else None
+
+    def known(part, c, o):
+        k = part.classify(c, o) if hasattr(part, "classify") else None
+        return k if (k is not None and k in open_ids) else None
+
+    rc, nviol = 0, 0
+    total_eval, keys, samples, hist = 0, set(), [], {}
+    agree_n = spec_n = 0
+    known_total = {}
+    unshown = []   # (part, disagreeing cases) without failing input
+    reported = False
+    for part in parts:
+        pn = part_name(part)
+        if rp is not None:
+            if rp.get("part", pn) != pn:
+                continue
+            cases = [dict(rp["case"])] if "case" in rp else []
         else:
-            unknown.append(c)
-    # disagreements that are explained by a known finding do not count
-    disagree_unexpl = []
-    for c in disagree:
-        k = mod.classify(c, obs[c["id"]]) if hasattr(mod, "classify") else None
-        if not (k is not None and k in open_ids):
-            disagree_unexpl.append(c)
-    extra_evals = 0
-    if (disagree_unexpl or problems) and not unknown and not replay and hasattr(mod, "gen_cases"):
-        # the property is no longer shown; search harder for a concrete failing input
-        for rnd in range(getattr(mod, "EXTRA_ROUNDS", 3)):
-            more = (mod.extra_search(rng, rnd) if hasattr(mod, "extra_search") else mod.gen_cases(rng, tier))
-            for i, c in enumerate(more):
-                c["id"] = i
-            try:
-                o2, v2 = evaluate(mod, tier, more, tag="search")
-            except Exception as e:
-                break
-            extra_evals += len(more)
-            bad = [c for c in more if not v2[c["id"]][1] and not
-                   (hasattr(mod, "classify") and mod.classify(c, o2[c["id"]]) in open_ids)]
-            if bad:
-                for c in bad:
-                    obs[("x", rnd, c["id"])] = o2[c["id"]]
-                    c["_obs"] = o2[c["id"]]
-                unknown.extend(bad)
-                break
-    rc = 0
-    nviol = 0
-    for k, cs in sorted(known_hits.items()):
-        print("KNOWN-FINDING: property=%s %s (%d case(s) this run, e.g. %s)" % (
-            prop, open_ids[k].get("what", k), len(cs), json.dumps(mod.describe(cs[0], obs[cs[0]["id"]]))[:300]))
-    if unknown:
-        c0 = unknown[0]
-        small = shrink_case(mod, tier, dict(c0), lambda v: not v[1])
-        small["id"] = 0
-        try:
-            o3, v3 = evaluate(mod, tier, [small], tag="final")
-            ob, vv = o3[0], v3[0]
-        except Exception as e:
-            ob, vv = c0.get("_obs") or obs.get(c0["id"]), (None, False)
-        model_view = ""
-        if hasattr(mod, "model_view"):
-            try:
-                model_view = mod.model_view(small, ob, tier)
-            except Exception as e:
-                model_view = "unavailable: %s" % e
-        core.violation(prop, {"property": prop, "kind": "spec-false-on-implementation",
-                              "case": {k: v for k, v in small.items() if not k.startswith("_")},
-                              "implementation_observation": ob, "verdict_agree_spec": vv,
-                              "model_expects": model_view, "seed": seed, "tier": tier,
-                              "failing_cases_this_run": len(unknown), "repo": core.repo_head(),
-                              "how_to_replay": "./check %s --replay <this file>" % prop})
-        rc = 1
-        nviol = len(unknown)
-    elif disagree_unexpl or problems:
-        c0 = disagree_unexpl[0] if disagree_unexpl else None
-        desc = {"property": prop, "kind": "not-shown", "seed": seed, "tier": tier, "repo": core.repo_head(),
-                "no_longer_checks": ([p["what"] for p in problems] +
-                                     (["correspondence %s: model %s and implementation differ on %d of %d cases"
-                                       % (mod.ENGINE, mod.FN, len(disagree_unexpl), len(cases))] if disagree_unexpl else [])),
-                "problems": problems, "search": "%d further cases evaluated with the executable spec, none failed" % extra_evals}
-        if c0 is not None:
-            small = shrink_case(mod, tier, dict(c0), lambda v: not v[0])
-            desc["case"] = {k: v for k, v in small.items() if not k.startswith("_")}
+            cases = [dict(c) for c in getattr(part, "CORPUS", [])] + part.gen_cases(rng, tier)
+        for i, c in enumerate(cases):
+            c["id"] = i
+        if not cases:
+            continue
+        obs, ver = evaluate(prop, part, tier, cases)
+        total_eval += len(cases)
+        agree_n += sum(1 for c in cases if ver[c["id"]][0])
+        spec_n += sum(1 for c in cases if ver[c["id"]][1])
+        known_hits, unknown, disagree_unexpl = {}, [], []
+        for c in cases:
+            a, s = ver[c["id"]][0], ver[c["id"]][1]
+            if a and s:
+                continue
+            k = known(part, c, obs[c["id"]])
+            if k is not None:
+                known_hits.setdefault(k, []).append(c)
+            elif not s:
+                c["_obs"] = obs[c["id"]]
+                unknown.append(c)
+            else:
+                disagree_unexpl.append(c)
+        extra = 0
+        if (disagree_unexpl or problems) and not unknown and rp is None:
+            for rnd in range(getattr(part, "EXTRA_ROUNDS", 2)):
+                more = (part.extra_search(rng, rnd) if hasattr(part, "extra_search") else part.gen_cases(rng, tier))
+                for i, c in enumerate(more):
+                    c["id"] = i
+                try:
+                    o2, v2 = evaluate(prop, part, tier, more, tag="search")
+                except Exception:
+                    break
+                extra += len(more)
+                bad = [c for c in more if not v2[c["id"]][1] and known(part, c, o2[c["id"]]) is None]
+                if bad:
+                    for c in bad:
+                        c["_obs"] = o2[c["id"]]
+                    unknown.extend(bad)
+                    break
+        total_eval += extra
+        for k, cs in sorted(known_hits.items()):
+            known_total[k] = known_total.get(k, 0) + len(cs)
+            print("KNOWN-FINDING: property=%s %s (%d case(s) this run, e.g. %s)" % (
+                prop, open_ids[k].get("what", k), len(cs), json.dumps(part.describe(cs[0], obs[cs[0]["id"]]))[:400]))
+        if unknown and not reported:
+            c0 = unknown[0]
+            small = shrink_case(prop, part, tier, strip(c0), lambda v: not v[1])
             small["id"] = 0
             try:
-                o3, v3 = evaluate(mod, tier, [small], tag="final")
+                o3, v3 = evaluate(prop, part, tier, [small], tag="final")
+                ob, vv = o3[0], v3[0]
+            except Exception:
+                ob, vv = c0.get("_obs"), (None, False)
+            mv = ""
+            if hasattr(part, "model_view"):
+                try:
+                    mv = part.model_view(small, ob, tier)
+                except Exception as e:
+                    mv = "unavailable: %s" % e
+            core.violation(prop, {"property": prop, "part": pn, "kind": "spec-false-on-implementation",
+                                  "case": strip(small), "implementation_observation": ob, "verdict_agree_spec": vv,
+                                  "model_expects": mv, "seed": seed, "tier": tier,
+                                  "failing_cases_this_run": len(unknown), "repo": core.repo_head(),
+                                  "how_to_replay": "./check %s --replay <this file>" % prop})
+            reported = True
+            rc = 1
+            nviol += len(unknown)
+        elif disagree_unexpl:
+            unshown.append((part, disagree_unexpl, len(cases), extra))
+        for c in cases:
+            k = part.nontrivial(c, obs[c["id"]])
+            if k is not None:
+                keys.add((pn, k))
+        picks = cases[:2] + cases[len(cases) // 2: len(cases) // 2 + 1]
+        samples += [{"part": pn, "case": part.describe(c, obs[c["id"]])} for c in picks]
+        if hasattr(part, "histogram"):
+            hist[pn] = part.histogram(cases, obs)
+    if not reported and (unshown or problems):
+        desc = {"property": prop, "kind": "not-shown", "seed": seed, "tier": tier, "repo": core.repo_head(),
+                "no_longer_checks": [p["what"] for p in problems], "problems": problems}
+        for part, dis, n, extra in unshown:
+            pn = part_name(part)
+            desc["no_longer_checks"].append("correspondence %s (Coq function %s vs implementation): they differ on %d of %d cases; "
+                                            "%d further cases searched with the executable spec, none failed" % (pn, part.FN, len(dis), n, extra))
+        if unshown:
+            part, dis, n, extra = unshown[0]
+            small = shrink_case(prop, part, tier, strip(dis[0]), lambda v: not v[0])
+            small["id"] = 0
+            desc["part"] = part_name(part)
+            desc["case"] = strip(small)
+            try:
+                o3, v3 = evaluate(prop, part, tier, [small], tag="final")
                 desc["implementation_observation"] = o3[0]
-                if hasattr(mod, "model_view"):
-                    desc["model_expects"] = mod.model_view(small, o3[0], tier)
+                if hasattr(part, "model_view"):
+                    desc["model_expects"] = part.model_view(small, o3[0], tier)
             except Exception as e:
-                desc["implementation_observation"] = obs.get(c0["id"])
+                desc["note"] = "re-evaluation failed: %s" % e
         core.violation(prop, desc, no_input=True)
         rc = 1
-        nviol = max(1, len(disagree_unexpl))
-    # evidence
-    keys = set()
-    for c in cases:
-        k = mod.nontrivial(c, obs[c["id"]])
-        if k is not None:
-            keys.add(k)
-    samples = [mod.describe(c, obs[c["id"]]) for c in cases[:3]] + \
-              [mod.describe(c, obs[c["id"]]) for c in cases[len(cases) // 2: len(cases) // 2 + 2]]
-    cov = {"evaluations": len(cases) + extra_evals, "distinct_nontrivial": len(keys),
+        nviol += max(1, sum(len(d) for _, d, _, _ in unshown))
+    cov = {"evaluations": total_eval, "distinct_nontrivial": len(keys),
            "rule": getattr(mod, "RULE", ""), "samples": samples,
-           "agree": sum(1 for c in cases if ver[c["id"]][0]), "spec_true": sum(1 for c in cases if ver[c["id"]][1]),
-           "known_finding_cases": {k: len(v) for k, v in known_hits.items()},
-           "repo": core.repo_head()}
-    if hasattr(mod, "histogram"):
-        cov["input_distribution"] = mod.histogram(cases, obs)
+           "agree": agree_n, "spec_true": spec_n, "known_finding_cases": known_total, "repo": core.repo_head(),
+           "input_distribution": hist}
     core.write_evidence(prop, tier, seed, st, cov, time.time() - t0, nviol,
                         assumptions=getattr(mod, "ASSUMPTIONS", []))
     if rc == 0:
         print("OK property=%s tier=%s cases=%d distinct_nontrivial=%d theorems=%d closed wall=%.1fs" % (
-            prop, tier, len(cases), len(keys), len(st["theorems"]), time.time() - t0))
+            prop, tier, total_eval, len(keys), len(st["theorems"]), time.time() - t0))
     return rc
